@@ -2,6 +2,7 @@
 SPECIFICATION Spec
 CONSTANTS
   Threads = {1, 2, 3}
+  Owners = {1, 2, 3}
   MaxClones = 2
   MaxReads = 1
   FreeOn = 1
